@@ -433,6 +433,24 @@ def run(ctx):
         elif nt: ctx.nontrivial.add(c)
     bad.sort(key=lambda b: len(b[0]))
 
+    # ---- direct differential run of generated code: Gen_RawPool.pvCreateRawMemPool + Gen_MemPoolConst.CorrectBlockSize vs the real pool's block size
+    if have_model and rc == 0:
+        seen_cfg = {}
+        for out in lines:
+            m = re.search(r'\|cfg=(\w+)\|row=(\d+)\|block=(\d+)\|bc=(\d+)\|keep=\d\|al=(\d+)$', out)
+            if m: seen_cfg[m.group(1)] = tuple(int(x) for x in m.groups()[1:])
+        wrong = []
+        for cfg, (row, block, bc, al) in sorted(seen_cfg.items()):
+            rcb, ob, eb, _ = vlib.sh([ctx.model_exe, 'blocksize', str(row), str(al), str(bc)], timeout=30)
+            ctx.evaluations += 1
+            if rcb != 0 or ob.strip() != str(block):
+                wrong.append('%s: row=%d alignment=%d blockCount=%d: real block %d, generated %s' % (cfg, row, al, bc, block, ob.strip() or eb[-100:]))
+        okb = bool(seen_cfg) and not wrong
+        ctx.stage('corr:pool-block-size', okb, '\n'.join(wrong))
+        ctx.tie_obligations.append({'name': 'generated pvCreateRawMemPool + CorrectBlockSize == the real raw pool\'s block size on %d table configurations' % len(seen_cfg), 'ok': okb})
+        for w in wrong[:1]:
+            ctx.violation('generated pool-parameter code and the real pool disagree', {'case': 'seq:%s n' % w.split(':')[0], 'detail': w}, found_input=True)
+
     # ---- tie (b): the extracted machine replays the observed event traces
     if have_model and rc == 0 and len(lines) == len(cases):
         seqs = [(c, l) for c, l in zip(cases, lines) if c.split()[0] != 'cross']
